@@ -32,7 +32,7 @@ def plan(tier, seed):
             for c1 in range(8):
                 for c2 in range(8):
                     cases.append({"mode": "dfs", "cfg": cfg, "prefix": [0, c0, c1, c2], "depth": d + 1})
-    nwalk = 2500 if tier == "quick" else 120000
+    nwalk = 8000 if tier == "quick" else 150000
     for i in range(nwalk):
         cases.append({"mode": "walk", "seed": seed, "idx": i, "cfg": {"n": 1 + i % 3, "async": i % 4 == 3, "foreign": i % 5 == 0}, "len": 10 + i % 5})
     # directed case for the listed finding C11-restart-replaced-bet
